@@ -75,6 +75,11 @@ def run(w, rep, tier):
     if okj:
         verdict(rep, "C16.norm", "q_dot = SO3Quat.right_jacobian(q) omega_wb_b", qd, cm.matmul(Jr, omv), (), W, "attitude kinematics do not pair the body rate with the right (body-frame) Jacobian")
     verdict(rep, "C16.norm", "q . q_dot = 0", cm.dot(qv, qd), zeros(1, 1), (), W, "quaternion derivative is not orthogonal to the quaternion: the norm drifts")
+    # reference independent of the library Jacobian: q_dot = 1/2 q * (0, omega) (Hamilton product), on every if_else
+    # selection of the model's expression (a sign flip for q0 < 0 integrates the attitude backwards there)
+    okh, half = guarded(w, rep, "C16.norm", "quaternion product", lambda: cm.ew(w.param(w.call(Q, "product", w.elem(Q, qv), w.elem(Q, cm.vertcat(0, omv)))), Fraction(1, 2), cm.pmul))
+    if okh:
+        verdict_by_branches(rep, "C16.norm", "q_dot = 1/2 q * (0, omega_wb_b) on every selection", qd, half, (), W, "attitude kinematics are not the body-rate quaternion kinematics")
     # ---- D4 motor lag
     wd = w.sl(xd, 13, 17)
     tu, tdn = pa.get("tau_up"), pa.get("tau_down")
